@@ -474,6 +474,9 @@ func compileForPhraseStmt(ctx *blockCtx, v *ast.ForPhraseStmt) {
 		names = append(names, v.Value.Name)
 		defineNames = append(defineNames, v.Value)
 	}
+	if v.Key == nil && v.Value != nil && v.Value.Name == "_" {
+		names = nil // for range X (Go rejects `for _, _ := range X`)
+	}
 	cb.ForRange(names...)
 	compileExpr(ctx, v.X)
 	cb.RangeAssignThen(v.TokPos)
